@@ -1189,6 +1189,11 @@ impl<'tcx> Cx<'tcx> {
                 if let Ok(val) = tcx.const_eval_poly(did) {
                     self.const_value(&mut v, val, ty);
                 }
+                // the initialiser's MIR: rules read table constants (arrays of tuples) from it
+                if tcx.is_mir_available(did) || tcx.hir_maybe_body_owned_by(did.expect_local()).is_some() {
+                    let body: &Body<'tcx> = tcx.mir_for_ctfe(did);
+                    v.push(("mir", self.body(did, body)));
+                }
             }
             out.push(J::Obj(v));
         }
